@@ -8,6 +8,11 @@ class C07(ProgProp):
            "item_faults": 0.04, "p_item": 0.5, "p_na": 0.05}
 
     def tune(self, rng, cfg, tier):
+        if rng.random() < 0.25:
+            # abandoned-task motif: a task holding an override is left suspended for good when the
+            # task awaiting it fails inside a NonAsyncContext; it is finalised after the computation
+            cfg.update(p_na=0.25, p_try=0.25, p_sv=0.45, p_item=0.6, p_fault=0.0, p_create=0.05, p_ref=0.05)
+            cfg["n_templates"] = rng.randint(2, 4)
         if cfg["p_na"] > 0:
             cfg["p_sync"] = 0.0
         return cfg
